@@ -94,3 +94,70 @@ CHECKS.update({
 })
 for _p in CHECKS:
     NOT_APPLICABLE.pop(_p, None)
+
+CHECKS.update({
+    "C04": _hist("One accepted order of every class with symbolic amount and prices (infinite liquidity) or symbolic "
+                 "prices and solver-chosen amount/volume (VolumeShareImpact), 2 bars with symbolic OHLC: per fill z3 "
+                 "discharges limit bound, range-reaches-limit, stop-before-trade, never better than the bar's extreme, "
+                 "market/stop inside the range and not better than open/stop; completeness clause with ample funds "
+                 "under infinite liquidity. Products of two symbolic values are decided by z3's NIA within the stated "
+                 "magnitude bounds; unknown would be exit 3."),
+    "C09": _hist("Unit level: the real Percentage.calculate_fees + _round_fees + add_fill pipeline over k <= 3 fills "
+                 "with symbolic quote amounts and minimum fee, percentage from a solver-chosen set: total fee == "
+                 "roundup(max(pct x total quote, min)) after every fill, quote symbol only, never negative, never "
+                 "refunded. Integration: the same identity on OrderInfo through the exchange with partial fills under "
+                 "VolumeShareImpact, and fees == {} under NoFee."),
+    "C10": _hist("create_loan and auto-borrow orders from arbitrary symbolic account states (incl. empty / zero "
+                 "equity, optional earlier loan), 2 priced pairs with solver-chosen closes, margin requirement from "
+                 "{0, .25, .5, 1, 2}: on every path where the loan is granted z3 shows equity_after >= requirement x "
+                 "value borrowed (independent valuation); NoLoans: every borrow path fails."),
+    "C11": _hist("One loan with symbolic principal / minimum interest / balance / elapsed seconds (<= 10 y), same and "
+                 "different interest symbol, three period settings: outstanding interest equals the reference formula "
+                 "(exact rational elapsed/period), >= 0 and >= minimum, repay debits exactly principal + interest, "
+                 "closes, records paid interest; closed / unknown loans cannot be repaid; refused repay changes nothing "
+                 "and happens only when funds are short; auto-repay order with 2 open loans: greedy largest-first rule "
+                 "replayed on symbolic balances."),
+    "C16": dict(level="model_checking", ref="DESIGN.md §5 C16, §10",
+                technique="real client code executed with recording session/hmac stubs; wire produced by the real yarl / "
+                          "aiohttp.FormData code; string arguments carry a solver-chosen ASCII character, decimals symbolic",
+                text="Every public coroutine of the three Binance account clients and every authenticated Bitstamp "
+                     "method (introspected): the message handed to hmac.new equals the transmitted query string without "
+                     "the signature followed by the transmitted body (Binance) / the v2 message rebuilt from the "
+                     "transmitted request (Bitstamp) for each of the 95 printable ASCII characters at the free position "
+                     "of each string argument (solver-enumerated), key header present, timestamp == round(clock x 1000) "
+                     "for three boundary clocks, two requests get different nonces.",
+                note="wire = what yarl/FormData produce in pure-python mode, not socket bytes; HMAC-SHA256 and uuid4 "
+                     "uniqueness trusted; one free character per value"),
+    "C17": dict(level="model_checking", ref="DESIGN.md §5 C17, §4",
+                technique="symbolic decimals (z3 Int coefficient, solver-chosen exponent) through the real order entry "
+                          "points to a recording session; rendering decided from the to-scientific-string rule; timestamp "
+                          "kernels over the reals and per-binade integer encoding of binary64 (fpkernel)",
+                text="Every order entry point of binance spot / cross / isolated accounts and of bitstamp, both sides: "
+                     "for every coefficient in [1,1e16) and every exponent -14..+4 each decimal parameter arrives as a "
+                     "plain fixed-point string of the same value, unset options absent, documented endpoint / side / "
+                     "symbol / type; ms and us timestamp kernels exact over 2010..2100 (reals: symbolic integer; "
+                     "binary64: 50 binade cases each, all unsat, every case's witness validated against "
+                     "datetime.fromtimestamp).",
+                note="str(Decimal) contract = General Decimal Arithmetic to-scientific-string; wrapper decoding of "
+                     "decimals (Decimal(str)) is exact by construction and only the timestamp kernels are encoded"),
+    "C18": dict(level="fault_enumeration", ref="DESIGN.md §5 C18",
+                technique="solver-enumerated fault scripts executed through the real websocket clients on a virtual-time "
+                          "loop against a fake socket; obligations over the observed frame trace",
+                text="11 server/client behaviours x 2+1 steps x 3 clients (4000 scripts): every connection that becomes "
+                     "quiescent carries a SUBSCRIBE for every registered channel, a listen key expiry delivered on a "
+                     "live connection is followed by a re-SUBSCRIBE on that connection, channels registered while "
+                     "connected get subscribed, messages are routed only to their channel's source, keep-alives keep "
+                     "coming, connection attempts respect the back-off, main() never dies.",
+                note="fidelity of the fake socket / session to aiohttp is assumed; every path = one script"),
+    "C19": dict(level="model_checking", ref="DESIGN.md §5 C19",
+                technique="symbolic execution of Bar, the CSV RowParsers, load_sort_and_yield and "
+                          "RealTimeTradesToBar.main() with symbolic decimals and microsecond trade timestamps",
+                text="Bar() refuses exactly the inconsistent OHLC; common / Yahoo row parsers yield one event per "
+                     "non-zero-volume row with the row's values at start + period (sanitize / adjust variants); "
+                     "sorting yields a non-decreasing permutation; for 3 trades with symbolic instants anywhere in 3 "
+                     "windows (durations 1/60/3600 s, 3 start offsets) every trade lands in exactly one bar whose "
+                     "O/H/L/C/V are first/max/min/last/sum and bars come out in time order.",
+                note="file encodings / BOM detection are outside the claim (C level I/O); zero-latency in-order feed"),
+})
+for _p in CHECKS:
+    NOT_APPLICABLE.pop(_p, None)
